@@ -9,8 +9,10 @@ import (
 	"go/constant"
 	"go/token"
 	"go/types"
+	"sort"
 	"strings"
 
+	"golang.org/x/tools/go/packages"
 	"golang.org/x/tools/go/ssa"
 )
 
@@ -22,12 +24,13 @@ func init() {
 }
 
 type wtAnchors struct {
-	sigField *types.Var // Core's signal channel field
-	coreList *types.Var // the guarded []Core field
-	wait     *ast.FuncDecl
-	run      *ast.FuncDecl
-	info     *types.Info
-	loop     *ast.ForStmt
+	sigField  *types.Var // Core's signal channel field
+	coreList  *types.Var // the guarded []Core field
+	wait      *ast.FuncDecl
+	run       *ast.FuncDecl
+	info      *types.Info
+	loop      *ast.ForStmt
+	loopLabel string
 }
 
 func wtResolve(c *Ctx) *wtAnchors {
@@ -68,13 +71,38 @@ func wtResolve(c *Ctx) *wtAnchors {
 	if w.coreList == nil {
 		fatalf("anchor unresolved: VM.Wait reads no []Core field")
 	}
-	for _, s := range w.wait.Body.List {
-		if f, ok := s.(*ast.ForStmt); ok && w.loop == nil {
-			w.loop = f
+	// the polling loop: the outermost `for` statement of Wait that (lexically,
+	// function literals aside) contains the receive from the signal channel —
+	// whether or not it is labelled, has a condition, or sits inside a block
+	var stack []ast.Node
+	ast.Inspect(w.wait.Body, func(n ast.Node) bool {
+		if n == nil {
+			stack = stack[:len(stack)-1]
+			return true
 		}
-	}
+		if _, ok := n.(*ast.FuncLit); ok {
+			return false
+		}
+		stack = append(stack, n)
+		if u, ok := n.(*ast.UnaryExpr); ok && u.Op == token.ARROW && w.loop == nil {
+			if sel, ok := ast.Unparen(u.X).(*ast.SelectorExpr); ok && w.info.Uses[sel.Sel] == w.sigField {
+				for i, a := range stack {
+					if f, ok := a.(*ast.ForStmt); ok {
+						w.loop = f
+						if i > 0 {
+							if ls, ok := stack[i-1].(*ast.LabeledStmt); ok {
+								w.loopLabel = ls.Label.Name
+							}
+						}
+						break
+					}
+				}
+			}
+		}
+		return true
+	})
 	if w.loop == nil {
-		fatalf("anchor unresolved: VM.Wait has no top-level polling loop")
+		fatalf("anchor unresolved: VM.Wait has no polling loop around its receive from the signal channel")
 	}
 	return w
 }
@@ -120,7 +148,7 @@ func wtCapacity(c *Ctx, w *wtAnchors) (min int64, known bool, where string) {
 			}
 			idx := dmParamIndex(fn, x)
 			found := false
-			for caller := range a.callers[fn] {
+			for _, caller := range a.sortedCallers(fn) {
 				for _, b := range caller.Blocks {
 					for _, in := range b.Instrs {
 						if ci, ok := in.(ssa.CallInstruction); ok {
@@ -160,7 +188,9 @@ func wtCapacity(c *Ctx, w *wtAnchors) (min int64, known bool, where string) {
 func ruleChanSend(c *Ctx) []Obligation {
 	w := wtResolve(c)
 	var obs []Obligation
-	// (1) sends per path of Core.Run
+	// (1) sends per path of Core.Run. A call of a function of the module that
+	// itself sends on the signal channel (a `signal(i)` / `finish(i)` helper)
+	// counts as the sends of its body.
 	type exitAgg struct {
 		min, max int
 		pos      token.Pos
@@ -168,23 +198,17 @@ func ruleChanSend(c *Ctx) []Obligation {
 	}
 	agg := map[token.Pos]*exitAgg{}
 	var order []token.Pos
-	wk := &Walker[int]{
-		Clone: func(n int) int { return n },
-		OnStmt: func(n int, s ast.Stmt) (int, bool) {
-			if w.isSigSend(s) {
-				return n + 1, true
-			}
-			return n, true
-		},
-		OnCond: func(n int, cond ast.Expr, taken bool) (int, bool) {
-			if tv, ok := w.info.Types[cond]; ok && tv.Value != nil && tv.Value.Kind() == constant.Bool {
-				return n, constant.BoolVal(tv.Value) == taken
-			}
-			return n, true
-		},
-		IsPanic: func(s ast.Stmt) bool { return IsPanicCall(w.info, s) },
-	}
-	wk.Exit = func(n int, o outcome) {
+	sc := &wtSendCounter{c: c, w: w, memo: map[*types.Func][2]int{}, active: map[*types.Func]bool{}, accounted: map[*types.Func]bool{}}
+	sc.reach = dfReaching(c, func(p *packages.Package, n ast.Node) bool {
+		ss, ok := n.(*ast.SendStmt)
+		if !ok {
+			return false
+		}
+		sel, ok := ast.Unparen(ss.Chan).(*ast.SelectorExpr)
+		return ok && p.TypesInfo.Uses[sel.Sel] == w.sigField
+	})
+	wk := sc.walker(w.info)
+	wk.Exit = func(n [2]int, o outcome) {
 		if o.kind == cPanic {
 			return
 		}
@@ -195,20 +219,20 @@ func ruleChanSend(c *Ctx) []Obligation {
 		}
 		e := agg[pos]
 		if e == nil {
-			e = &exitAgg{min: n, max: n, pos: pos, kind: kind}
+			e = &exitAgg{min: n[0], max: n[1], pos: pos, kind: kind}
 			agg[pos] = e
 			order = append(order, pos)
 		}
-		if n < e.min {
-			e.min = n
+		if n[0] < e.min {
+			e.min = n[0]
 		}
-		if n > e.max {
-			e.max = n
+		if n[1] > e.max {
+			e.max = n[1]
 		}
 	}
-	wk.Run(w.run.Body, 0)
-	if wk.Overflow || len(wk.Unsupported) > 0 {
-		obs = append(obs, Obligation{Key: "runtime.Core.Run|paths", Status: Undecided, Pos: c.Pos(w.run.Pos()), Detail: fmt.Sprintf("path enumeration incomplete (overflow=%v, unsupported statements=%d)", wk.Overflow, len(wk.Unsupported))})
+	wk.Run(w.run.Body, [2]int{})
+	if wk.Overflow || len(wk.Unsupported) > 0 || sc.incomplete != "" {
+		obs = append(obs, Obligation{Key: "runtime.Core.Run|paths", Status: Undecided, Pos: c.Pos(w.run.Pos()), Detail: fmt.Sprintf("path enumeration incomplete (overflow=%v, unsupported statements=%d) %s", wk.Overflow, len(wk.Unsupported), sc.incomplete)})
 	}
 	// stable numbering: source order
 	for i := 0; i < len(order); i++ {
@@ -239,25 +263,43 @@ func ruleChanSend(c *Ctx) []Obligation {
 		}
 		obs = append(obs, ob)
 	}
-	// sends outside Core.Run
-	rt := c.Pkg("homescript/runtime")
+	// sends outside Core.Run: fine when the sending function is a helper whose
+	// sends were counted above and which is called from nowhere else
+	runObj, _ := w.info.Defs[w.run.Name].(*types.Func)
 	for _, p := range c.All {
 		for _, fd := range AllFuncDecls(p) {
 			if fd == w.run {
 				continue
 			}
+			fobj, _ := p.TypesInfo.Defs[fd.Name].(*types.Func)
+			var first *ast.SendStmt
 			ast.Inspect(fd.Body, func(n ast.Node) bool {
-				if ss, ok := n.(*ast.SendStmt); ok {
+				if ss, ok := n.(*ast.SendStmt); ok && first == nil {
 					if sel, ok := ast.Unparen(ss.Chan).(*ast.SelectorExpr); ok && p.TypesInfo.Uses[sel.Sel] == w.sigField {
-						obs = append(obs, Obligation{Key: fmt.Sprintf("%s.%s|send on %s outside Core.Run", relPkgShort(p.PkgPath), FuncName(fd), w.sigField.Name()), Pos: c.Pos(ss.Pos()), Status: Undecided,
-							Detail: "the per-run send count only covers Core.Run; a send elsewhere needs the rule extended"})
+						first = ss
 					}
 				}
 				return true
 			})
+			if first == nil {
+				continue
+			}
+			why := ""
+			switch {
+			case fobj == nil || !sc.accounted[fobj]:
+				why = "the per-run send count only covers Core.Run and the helpers it calls; a send elsewhere needs the rule extended"
+			case moFuncValueEscapes(c, fobj):
+				why = "the sending helper is also used as a function value: its sends cannot be attributed to the paths of Core.Run"
+			default:
+				if other := wtOtherCaller(c, fobj, runObj, sc.accounted); other != "" {
+					why = "the sending helper is also called from " + other + ", outside the counted paths of Core.Run"
+				}
+			}
+			if why != "" {
+				obs = append(obs, Obligation{Key: fmt.Sprintf("%s.%s|send on %s outside Core.Run", relPkgShort(p.PkgPath), FuncName(fd), w.sigField.Name()), Pos: c.Pos(first.Pos()), Status: Undecided, Detail: why})
+			}
 		}
 	}
-	_ = rt
 	// (2) capacity vs. draining
 	capMin, capKnown, capWhere := wtCapacity(c, w)
 	capOb := Obligation{Key: fmt.Sprintf("runtime.Core.%s|capacity", w.sigField.Name()), Pos: capWhere, Nontrivial: true}
@@ -295,6 +337,211 @@ func ruleChanSend(c *Ctx) []Obligation {
 	return obs
 }
 
+// wtSendCounter counts the sends on the signal channel along the paths of a
+// function body, looking through calls of module functions that send.
+type wtSendCounter struct {
+	c         *Ctx
+	w         *wtAnchors
+	memo      map[*types.Func][2]int
+	active    map[*types.Func]bool
+	accounted map[*types.Func]bool // helpers whose sends were attributed to a call site
+	// byRet: for a helper with a single boolean result that returns the literals
+	// true / false, the (min, max) sends on the paths returning each of them
+	// (`if self.endOfCycle() { return }`: the sends belong to the `true` outcome)
+	byRet      map[*types.Func]map[bool][2]int
+	reach      map[*types.Func]bool // functions that (transitively) contain a send
+	incomplete string
+}
+
+func (sc *wtSendCounter) isSend(info *types.Info, s ast.Stmt) bool {
+	ss, ok := s.(*ast.SendStmt)
+	if !ok {
+		return false
+	}
+	sel, ok := ast.Unparen(ss.Chan).(*ast.SelectorExpr)
+	return ok && info.Uses[sel.Sel] == sc.w.sigField
+}
+
+// callSends: sends performed by the module functions called inside n
+// (function literals are not entered: they run when called, not here).
+func (sc *wtSendCounter) callSends(info *types.Info, n ast.Node) [2]int {
+	var tot [2]int
+	if n == nil {
+		return tot
+	}
+	ast.Inspect(n, func(x ast.Node) bool {
+		switch y := x.(type) {
+		case *ast.FuncLit:
+			return false
+		case *ast.CallExpr:
+			if fn := CalleeOf(info, y); fn != nil {
+				if o := fn.Origin(); o != nil {
+					fn = o
+				}
+				r := sc.count(fn)
+				tot[0] += r[0]
+				tot[1] += r[1]
+			}
+		}
+		return true
+	})
+	return tot
+}
+
+// count: (min, max) sends over the non-panicking paths of fn.
+func (sc *wtSendCounter) count(fn *types.Func) [2]int {
+	if r, ok := sc.memo[fn]; ok {
+		return r
+	}
+	if sc.active[fn] || !sc.reach[fn] {
+		return [2]int{}
+	}
+	ref := moDeclOf(sc.c, fn)
+	if ref == nil || ref.fd.Body == nil {
+		return [2]int{}
+	}
+	sc.active[fn] = true
+	wk := sc.walker(ref.pkg.TypesInfo)
+	res := [2]int{1 << 30, 0}
+	any := false
+	perRet := map[bool][2]int{}
+	perRetOK := false
+	if sig, ok := fn.Type().(*types.Signature); ok && sig.Results().Len() == 1 {
+		if b, ok := sig.Results().At(0).Type().Underlying().(*types.Basic); ok && b.Kind() == types.Bool {
+			perRetOK = true
+		}
+	}
+	wk.Exit = func(n [2]int, o outcome) {
+		if o.kind == cPanic {
+			return
+		}
+		any = true
+		if perRetOK {
+			known := false
+			if o.ret != nil && len(o.ret.Results) == 1 {
+				if tv, ok := ref.pkg.TypesInfo.Types[o.ret.Results[0]]; ok && tv.Value != nil && tv.Value.Kind() == constant.Bool {
+					v := constant.BoolVal(tv.Value)
+					cur, have := perRet[v]
+					if !have {
+						cur = [2]int{n[0], n[1]}
+					}
+					if n[0] < cur[0] {
+						cur[0] = n[0]
+					}
+					if n[1] > cur[1] {
+						cur[1] = n[1]
+					}
+					perRet[v] = cur
+					known = true
+				}
+			}
+			if !known {
+				perRetOK = false
+			}
+		}
+		if n[0] < res[0] {
+			res[0] = n[0]
+		}
+		if n[1] > res[1] {
+			res[1] = n[1]
+		}
+	}
+	wk.MaxPaths = 4000
+	wk.Run(ref.fd.Body, [2]int{})
+	delete(sc.active, fn)
+	if !any {
+		res = [2]int{}
+	}
+	if res[1] > 0 {
+		if wk.Overflow || len(wk.Unsupported) > 0 {
+			sc.incomplete += fmt.Sprintf("[paths of the sending helper %s could not be enumerated]", fn.Name())
+		}
+		sc.accounted[fn] = true
+		if perRetOK {
+			if sc.byRet == nil {
+				sc.byRet = map[*types.Func]map[bool][2]int{}
+			}
+			sc.byRet[fn] = perRet
+		}
+	} else {
+		res = [2]int{}
+	}
+	sc.memo[fn] = res
+	return res
+}
+
+func (sc *wtSendCounter) walker(info *types.Info) *Walker[[2]int] {
+	add := func(n, d [2]int) [2]int { return [2]int{n[0] + d[0], n[1] + d[1]} }
+	return &Walker[[2]int]{
+		Clone: func(n [2]int) [2]int { return n },
+		OnStmt: func(n [2]int, s ast.Stmt) ([2]int, bool) {
+			if sc.isSend(info, s) {
+				n = add(n, [2]int{1, 1})
+			}
+			return add(n, sc.callSends(info, s)), true
+		},
+		OnCond: func(n [2]int, cond ast.Expr, taken bool) ([2]int, bool) {
+			if tv, ok := info.Types[cond]; ok && tv.Value != nil && tv.Value.Kind() == constant.Bool {
+				return n, constant.BoolVal(tv.Value) == taken
+			}
+			// `if helper(…)`: the outcome selects the helper's paths
+			if call, ok := ast.Unparen(cond).(*ast.CallExpr); ok {
+				if fn := CalleeOf(info, call); fn != nil {
+					if o := fn.Origin(); o != nil {
+						fn = o
+					}
+					sc.count(fn)
+					if pr, ok := sc.byRet[fn]; ok {
+						d, feasible := pr[taken]
+						if !feasible {
+							return n, false // the helper never returns this value
+						}
+						for _, a := range call.Args {
+							d = add(d, sc.callSends(info, a))
+						}
+						return add(n, d), true
+					}
+				}
+			}
+			return add(n, sc.callSends(info, cond)), true
+		},
+		OnCase: func(n [2]int, sw *ast.SwitchStmt, vals []ast.Expr, others []ast.Expr) ([2]int, bool) {
+			return n, true
+		},
+		OnDefer: func(n [2]int, d *ast.DeferStmt) ([2]int, bool) {
+			return n, true
+		},
+		IsPanic: func(s ast.Stmt) bool { return IsPanicCall(info, s) },
+	}
+}
+
+// wtOtherCaller: a call site of fn outside Core.Run and outside the counted helpers.
+func wtOtherCaller(c *Ctx, fn, run *types.Func, accounted map[*types.Func]bool) string {
+	found := ""
+	for _, p := range c.All {
+		for _, fd := range AllFuncDecls(p) {
+			fobj, _ := p.TypesInfo.Defs[fd.Name].(*types.Func)
+			if fobj == run || (fobj != nil && accounted[fobj]) {
+				continue
+			}
+			ast.Inspect(fd.Body, func(n ast.Node) bool {
+				if call, ok := n.(*ast.CallExpr); ok && found == "" {
+					if cal := CalleeOf(p.TypesInfo, call); cal != nil {
+						if o := cal.Origin(); o != nil {
+							cal = o
+						}
+						if cal == fn {
+							found = relPkgShort(p.PkgPath) + "." + FuncName(fd)
+						}
+					}
+				}
+				return true
+			})
+		}
+	}
+	return found
+}
+
 type wtCond struct {
 	cond  ast.Expr
 	taken bool
@@ -316,41 +563,112 @@ func wtCondString(cs []wtCond) string {
 	return strings.Join(p, " && ")
 }
 
-// wtVisitExits reports every statement that leaves Wait's polling loop (break
-// of that loop, return inside it) and every return after it.
+// wtVisitExits reports every way of leaving Wait's polling loop (break of that
+// loop, failing loop condition, return inside it) and every return after it,
+// each with the branch conditions under which it is reached. Conditions are
+// collected from enclosing if statements, from earlier `if c { …; continue /
+// break / return }` guards of the same statement list (the rest of the list
+// runs under !c) and from the clauses of tagless switches.
 func wtVisitExits(w *wtAnchors, f func(kind string, st ast.Stmt, conds []wtCond, inLoop bool)) {
-	var walk func(list []ast.Stmt, conds []wtCond, depth int, inLoop bool)
-	var stmt func(s ast.Stmt, conds []wtCond, depth int, inLoop bool)
-	stmt = func(s ast.Stmt, conds []wtCond, depth int, inLoop bool) {
+	info := w.info
+	with := func(conds []wtCond, c ...wtCond) []wtCond {
+		return append(append([]wtCond(nil), conds...), c...)
+	}
+	// jumps: the statement list always ends by leaving it
+	var jumps func(list []ast.Stmt) bool
+	jumps = func(list []ast.Stmt) bool {
+		if len(list) == 0 {
+			return false
+		}
+		switch x := list[len(list)-1].(type) {
+		case *ast.ReturnStmt:
+			return true
+		case *ast.BranchStmt:
+			return x.Tok == token.BREAK || x.Tok == token.CONTINUE || x.Tok == token.GOTO
+		case *ast.BlockStmt:
+			return jumps(x.List)
+		case *ast.IfStmt:
+			if x.Else == nil {
+				return false
+			}
+			eb, ok := x.Else.(*ast.BlockStmt)
+			if !ok {
+				return jumps(x.Body.List) && jumps([]ast.Stmt{x.Else})
+			}
+			return jumps(x.Body.List) && jumps(eb.List)
+		default:
+			return IsPanicCall(info, list[len(list)-1])
+		}
+	}
+	var walk func(list []ast.Stmt, conds []wtCond, depth int, inLoop bool, inner map[string]bool)
+	var stmt func(s ast.Stmt, conds []wtCond, depth int, inLoop bool, inner map[string]bool, label string)
+	stmt = func(s ast.Stmt, conds []wtCond, depth int, inLoop bool, inner map[string]bool, label string) {
+		if label != "" && inLoop {
+			m := map[string]bool{label: true}
+			for k := range inner {
+				m[k] = true
+			}
+			inner = m
+		}
 		switch x := s.(type) {
 		case *ast.BlockStmt:
-			walk(x.List, conds, depth, inLoop)
+			walk(x.List, conds, depth, inLoop, inner)
 		case *ast.LabeledStmt:
-			stmt(x.Stmt, conds, depth, inLoop)
+			stmt(x.Stmt, conds, depth, inLoop, inner, x.Label.Name)
 		case *ast.IfStmt:
-			walk(x.Body.List, append(append([]wtCond(nil), conds...), wtCond{x.Cond, true, x}), depth, inLoop)
+			walk(x.Body.List, with(conds, wtCond{x.Cond, true, x}), depth, inLoop, inner)
 			if x.Else != nil {
-				stmt(x.Else, append(append([]wtCond(nil), conds...), wtCond{x.Cond, false, x}), depth, inLoop)
+				stmt(x.Else, with(conds, wtCond{x.Cond, false, x}), depth, inLoop, inner, "")
 			}
 		case *ast.ForStmt:
 			if x == w.loop {
-				walk(x.Body.List, conds, 0, true)
+				if x.Cond != nil {
+					f("cond", x, with(conds, wtCond{x.Cond, false, nil}), true)
+				}
+				walk(x.Body.List, conds, 0, true, map[string]bool{})
 			} else {
-				walk(x.Body.List, conds, depth+1, inLoop)
+				walk(x.Body.List, conds, depth+1, inLoop, inner)
 			}
 		case *ast.RangeStmt:
-			walk(x.Body.List, conds, depth+1, inLoop)
+			walk(x.Body.List, conds, depth+1, inLoop, inner)
 		case *ast.SwitchStmt:
+			var prev []wtCond
 			for _, cl := range x.Body.List {
-				walk(cl.(*ast.CaseClause).Body, conds, depth+1, inLoop)
+				cc := cl.(*ast.CaseClause)
+				cs := conds
+				if x.Tag == nil {
+					// tagless: clause k runs when its expression holds and no earlier one did
+					cs = with(conds, prev...)
+					var or ast.Expr
+					for _, e := range cc.List {
+						if or == nil {
+							or = e
+						} else {
+							or = &ast.BinaryExpr{X: or, Op: token.LOR, Y: e}
+						}
+					}
+					if or != nil {
+						cs = append(cs, wtCond{or, true, nil})
+						prev = append(prev, wtCond{or, false, nil})
+					} else {
+						// default: every clause expression is false (wherever default is written)
+						cs = conds
+						for _, cl2 := range x.Body.List {
+							for _, e := range cl2.(*ast.CaseClause).List {
+								cs = with(cs, wtCond{e, false, nil})
+							}
+						}
+					}
+				}
+				walk(cc.Body, cs, depth+1, inLoop, inner)
 			}
 		case *ast.TypeSwitchStmt:
 			for _, cl := range x.Body.List {
-				walk(cl.(*ast.CaseClause).Body, conds, depth+1, inLoop)
+				walk(cl.(*ast.CaseClause).Body, conds, depth+1, inLoop, inner)
 			}
 		case *ast.SelectStmt:
 			for _, cl := range x.Body.List {
-				walk(cl.(*ast.CommClause).Body, conds, depth+1, inLoop)
+				walk(cl.(*ast.CommClause).Body, conds, depth+1, inLoop, inner)
 			}
 		case *ast.ReturnStmt:
 			f("return", x, conds, inLoop)
@@ -358,20 +676,114 @@ func wtVisitExits(w *wtAnchors, f func(kind string, st ast.Stmt, conds []wtCond,
 			if x.Tok == token.BREAK && inLoop && x.Label == nil && depth == 0 {
 				f("break", x, conds, inLoop)
 			}
-			if x.Tok == token.BREAK && x.Label != nil {
-				f("break", x, conds, inLoop) // conservatively: any labelled break
+			if x.Tok == token.BREAK && inLoop && x.Label != nil && !inner[x.Label.Name] {
+				f("break", x, conds, inLoop) // the polling loop's own label (or one further out)
 			}
 			if x.Tok == token.GOTO {
 				f("goto", x, conds, inLoop)
 			}
 		}
 	}
-	walk = func(list []ast.Stmt, conds []wtCond, depth int, inLoop bool) {
+	walk = func(list []ast.Stmt, conds []wtCond, depth int, inLoop bool, inner map[string]bool) {
 		for _, s := range list {
-			stmt(s, conds, depth, inLoop)
+			stmt(s, conds, depth, inLoop, inner, "")
+			// `if c { …; jump }` without else: the rest of the list runs under !c
+			if is, ok := s.(*ast.IfStmt); ok {
+				switch {
+				case is.Else == nil && jumps(is.Body.List):
+					conds = with(conds, wtCond{is.Cond, false, is})
+				case is.Else != nil && !jumps(is.Body.List):
+					if eb, ok := is.Else.(*ast.BlockStmt); ok && jumps(eb.List) {
+						conds = with(conds, wtCond{is.Cond, true, is})
+					}
+				case is.Else != nil && jumps(is.Body.List):
+					if eb, ok := is.Else.(*ast.BlockStmt); !ok || !jumps(eb.List) {
+						conds = with(conds, wtCond{is.Cond, false, is})
+					}
+				}
+			}
 		}
 	}
-	walk(w.wait.Body.List, nil, 0, false)
+	walk(w.wait.Body.List, nil, 0, false, nil)
+}
+
+// wtImplies: reaching a branch with `cond` evaluated to `taken` guarantees the
+// atomic fact tested by atom (atom(e, v): e evaluating to v guarantees it).
+func wtImplies(cond ast.Expr, taken bool, atom func(e ast.Expr, v bool) bool) bool {
+	switch x := ast.Unparen(cond).(type) {
+	case *ast.UnaryExpr:
+		if x.Op == token.NOT {
+			return wtImplies(x.X, !taken, atom)
+		}
+	case *ast.BinaryExpr:
+		switch {
+		case x.Op == token.LAND && taken, x.Op == token.LOR && !taken:
+			return wtImplies(x.X, taken, atom) || wtImplies(x.Y, taken, atom)
+		case x.Op == token.LAND && !taken, x.Op == token.LOR && taken:
+			return wtImplies(x.X, taken, atom) && wtImplies(x.Y, taken, atom)
+		}
+	}
+	return atom(ast.Unparen(cond), taken)
+}
+
+// wtSoleDef: the single defining expression of a local variable of fd (nil
+// when it is assigned more than once, or by a tuple assignment).
+func wtSoleDef(info *types.Info, fd *ast.FuncDecl, obj types.Object) ast.Expr {
+	var def ast.Expr
+	n := 0
+	ast.Inspect(fd.Body, func(nd ast.Node) bool {
+		switch x := nd.(type) {
+		case *ast.AssignStmt:
+			for i, lh := range x.Lhs {
+				if id, ok := lh.(*ast.Ident); ok && moObj(info, id) == obj {
+					n++
+					if len(x.Rhs) == len(x.Lhs) && (x.Tok == token.DEFINE || x.Tok == token.ASSIGN) {
+						def = x.Rhs[i]
+					} else {
+						n++
+					}
+				}
+			}
+		case *ast.IncDecStmt:
+			if id, ok := x.X.(*ast.Ident); ok && moObj(info, id) == obj {
+				n += 2
+			}
+		case *ast.ValueSpec:
+			for i, id := range x.Names {
+				if info.Defs[id] == obj && i < len(x.Values) {
+					n++
+					def = x.Values[i]
+				}
+			}
+		case *ast.UnaryExpr:
+			if id, ok := ast.Unparen(x.X).(*ast.Ident); ok && x.Op == token.AND && moObj(info, id) == obj {
+				n += 2 // address taken
+			}
+		}
+		return true
+	})
+	if n != 1 {
+		return nil
+	}
+	return def
+}
+
+// wtSingleReturn: the expression returned by a module function whose body is a
+// single `return <expr>` (a one-line accessor / predicate), with its package.
+func wtSingleReturn(c *Ctx, info *types.Info, call *ast.CallExpr) (ast.Expr, *types.Info, *ast.FuncDecl) {
+	fn := CalleeOf(info, call)
+	if fn == nil || fn.Pkg() == nil || !strings.HasPrefix(fn.Pkg().Path(), ModPath) {
+		return nil, nil, nil
+	}
+	ref := moDeclOf(c, fn)
+	if ref == nil || ref.fd.Body == nil || len(ref.fd.Body.List) != 1 {
+		return nil, nil, nil
+	}
+	r, ok := ref.fd.Body.List[0].(*ast.ReturnStmt)
+	if !ok || len(r.Results) != 1 {
+		return nil, nil, nil
+	}
+	return r.Results[0], ref.pkg.TypesInfo, ref.fd
 }
 
 // wtDrainsBefore: the innermost branch containing the return has, before it, a
@@ -381,6 +793,9 @@ func wtDrainsBefore(w *wtAnchors, ret ast.Stmt, conds []wtCond) bool {
 		return false
 	}
 	last := conds[len(conds)-1]
+	if last.stmt == nil {
+		return false
+	}
 	var block *ast.BlockStmt
 	if last.taken {
 		block = last.stmt.Body
@@ -449,10 +864,11 @@ func ruleWait(c *Ctx) []Obligation {
 		}
 		return true
 	})
-	isNilTest := func(e ast.Expr) (isRecv bool, eq bool) {
-		be, ok := ast.Unparen(e).(*ast.BinaryExpr)
+	// recvNonNil: e evaluating to v guarantees that the received interrupt is non-nil
+	recvNonNil := func(e ast.Expr, v bool) bool {
+		be, ok := e.(*ast.BinaryExpr)
 		if !ok || (be.Op != token.EQL && be.Op != token.NEQ) {
-			return false, false
+			return false
 		}
 		var o ast.Expr
 		if moIsNil(info, be.Y) {
@@ -460,36 +876,122 @@ func ruleWait(c *Ctx) []Obligation {
 		} else if moIsNil(info, be.X) {
 			o = be.Y
 		} else {
-			return false, false
+			return false
 		}
 		id, ok := ast.Unparen(o).(*ast.Ident)
 		if !ok || !recvVars[moObj(info, id)] {
-			return false, false
-		}
-		return true, be.Op == token.EQL
-	}
-	isEmptyTest := func(e ast.Expr) bool {
-		be, ok := ast.Unparen(e).(*ast.BinaryExpr)
-		if !ok || be.Op != token.EQL {
 			return false
 		}
-		chk := func(l, z ast.Expr) bool {
-			call, ok := ast.Unparen(l).(*ast.CallExpr)
-			if !ok || len(call.Args) != 1 {
-				return false
-			}
-			if id, ok := call.Fun.(*ast.Ident); !ok || id.Name != "len" {
-				return false
-			}
-			sel, ok := ast.Unparen(call.Args[0]).(*ast.SelectorExpr)
-			if !ok || info.Uses[sel.Sel] != w.coreList {
-				return false
-			}
-			tv := info.Types[z]
-			return tv.Value != nil && tv.Value.Kind() == constant.Int && constant.Sign(tv.Value) == 0
-		}
-		return chk(be.X, be.Y) || chk(be.Y, be.X)
+		return (be.Op == token.NEQ) == v
 	}
+	// isCoreLen: e is the length of the live-core list (directly, through a local
+	// defined once as such, through a slice-typed local copy of the list, or
+	// through a one-line accessor of the module)
+	var isCoreLen func(ci *types.Info, fd *ast.FuncDecl, e ast.Expr, depth int) bool
+	var isCoreList func(ci *types.Info, fd *ast.FuncDecl, e ast.Expr, depth int) bool
+	isCoreList = func(ci *types.Info, fd *ast.FuncDecl, e ast.Expr, depth int) bool {
+		if depth > 3 {
+			return false
+		}
+		switch x := ast.Unparen(e).(type) {
+		case *ast.SelectorExpr:
+			return ci.Uses[x.Sel] == w.coreList
+		case *ast.Ident:
+			if obj := moObj(ci, x); obj != nil && fd != nil {
+				if def := wtSoleDef(ci, fd, obj); def != nil {
+					return isCoreList(ci, fd, def, depth+1)
+				}
+			}
+		case *ast.CallExpr:
+			if r, ri, rfd := wtSingleReturn(c, ci, x); r != nil {
+				return isCoreList(ri, rfd, r, depth+1)
+			}
+		}
+		return false
+	}
+	isCoreLen = func(ci *types.Info, fd *ast.FuncDecl, e ast.Expr, depth int) bool {
+		if depth > 3 {
+			return false
+		}
+		switch x := ast.Unparen(e).(type) {
+		case *ast.CallExpr:
+			if id, ok := ast.Unparen(x.Fun).(*ast.Ident); ok && len(x.Args) == 1 {
+				if _, isB := ci.Uses[id].(*types.Builtin); isB && id.Name == "len" {
+					return isCoreList(ci, fd, x.Args[0], depth)
+				}
+			}
+			if tv, ok := ci.Types[x.Fun]; ok && tv.IsType() && len(x.Args) == 1 {
+				return isCoreLen(ci, fd, x.Args[0], depth+1) // int(len(…))
+			}
+			if r, ri, rfd := wtSingleReturn(c, ci, x); r != nil {
+				return isCoreLen(ri, rfd, r, depth+1)
+			}
+		case *ast.Ident:
+			if obj := moObj(ci, x); obj != nil && fd != nil {
+				if def := wtSoleDef(ci, fd, obj); def != nil {
+					return isCoreLen(ci, fd, def, depth+1)
+				}
+			}
+		}
+		return false
+	}
+	// listEmpty: e evaluating to v guarantees len(live-core list) == 0
+	var listEmptyIn func(ci *types.Info, fd *ast.FuncDecl, depth int) func(e ast.Expr, v bool) bool
+	listEmptyIn = func(ci *types.Info, fd *ast.FuncDecl, depth int) func(e ast.Expr, v bool) bool {
+		return func(e ast.Expr, v bool) bool {
+			switch x := e.(type) {
+			case *ast.BinaryExpr:
+				num := func(z ast.Expr) (int64, bool) {
+					tv := ci.Types[z]
+					if tv.Value == nil || tv.Value.Kind() != constant.Int {
+						return 0, false
+					}
+					n, ok := constant.Int64Val(tv.Value)
+					return n, ok
+				}
+				l, r, op := x.X, x.Y, x.Op
+				if _, ok := num(l); ok { // constant on the left: mirror
+					l, r = r, l
+					switch op {
+					case token.LSS:
+						op = token.GTR
+					case token.GTR:
+						op = token.LSS
+					case token.LEQ:
+						op = token.GEQ
+					case token.GEQ:
+						op = token.LEQ
+					}
+				}
+				k, ok := num(r)
+				if !ok || !isCoreLen(ci, fd, l, 0) {
+					return false
+				}
+				switch {
+				case op == token.EQL && k == 0, op == token.LSS && k == 1, op == token.LEQ && k == 0:
+					return v
+				case op == token.NEQ && k == 0, op == token.GTR && k == 0, op == token.GEQ && k == 1:
+					return !v
+				}
+			case *ast.CallExpr:
+				// a one-line predicate of the module: noLiveCores()
+				if depth < 2 {
+					if r, ri, rfd := wtSingleReturn(c, ci, x); r != nil {
+						return wtImplies(r, v, listEmptyIn(ri, rfd, depth+1))
+					}
+				}
+			case *ast.Ident:
+				// a boolean local defined once
+				if obj := moObj(ci, x); obj != nil && fd != nil && depth < 2 {
+					if def := wtSoleDef(ci, fd, obj); def != nil {
+						return wtImplies(def, v, listEmptyIn(ci, fd, depth+1))
+					}
+				}
+			}
+			return false
+		}
+	}
+	listEmpty := listEmptyIn(info, w.wait, 0)
 	nb, nr := 0, 0
 	var loopReturns []ast.Stmt
 	wtVisitExits(w, func(kind string, st ast.Stmt, conds []wtCond, inLoop bool) {
@@ -497,12 +999,12 @@ func ruleWait(c *Ctx) []Obligation {
 			return
 		}
 		switch kind {
-		case "break":
+		case "break", "cond":
 			nb++
 			ob := Obligation{Key: fmt.Sprintf("runtime.VM.Wait|loop exit: break #%d|only when the live-core list is empty", nb), Pos: c.Pos(st.Pos()), Nontrivial: true}
 			ok := false
 			for _, cd := range conds {
-				if cd.taken && isEmptyTest(cd.cond) {
+				if wtImplies(cd.cond, cd.taken, listEmpty) {
 					ok = true
 				}
 			}
@@ -518,7 +1020,7 @@ func ruleWait(c *Ctx) []Obligation {
 			ob := Obligation{Key: fmt.Sprintf("runtime.VM.Wait|loop exit: return #%d|only on a received interrupt", nr), Pos: c.Pos(st.Pos()), Nontrivial: true}
 			ok := false
 			for _, cd := range conds {
-				if is, eq := isNilTest(cd.cond); is && ((eq && !cd.taken) || (!eq && cd.taken)) {
+				if wtImplies(cd.cond, cd.taken, recvNonNil) {
 					ok = true
 				}
 			}
@@ -535,34 +1037,32 @@ func ruleWait(c *Ctx) []Obligation {
 	if nb+nr == 0 {
 		obs = append(obs, Obligation{Key: "runtime.VM.Wait|loop exits", Status: Violated, Pos: c.Pos(w.loop.Pos()), Detail: "the polling loop has no exit: Wait never returns"})
 	}
-	if w.loop.Cond != nil {
-		ob := Obligation{Key: "runtime.VM.Wait|loop condition", Pos: c.Pos(w.loop.Pos()), Status: Undecided, Detail: "the polling loop has a condition (" + exprStr(w.loop.Cond) + "): extend the rule to show it only fails when the core list is empty"}
-		obs = append(obs, ob)
-	}
 
 	// lock state and cancel call at every return
 	fl := &dfFlow{info: info}
-	isCancelCall := func(call *ast.CallExpr) bool {
-		t := info.TypeOf(call.Fun)
+	isCancelIn := func(ci *types.Info, call *ast.CallExpr) bool {
+		t := ci.TypeOf(call.Fun)
 		if t == nil {
 			return false
-		}
-		if n, ok := t.(*types.Named); ok && n.Obj().Pkg() != nil && n.Obj().Pkg().Path() == "context" && n.Obj().Name() == "CancelFunc" {
-			return true
 		}
 		if n, ok := types.Unalias(t).(*types.Named); ok && n.Obj().Name() == "CancelFunc" {
 			return true
 		}
 		return false
 	}
-	fl.Call = func(call *ast.CallExpr, st dfState) {
-		if k, op, ok := dfMutexOp(info, call); ok {
+	// wrapper methods around the mutex / the cancel function count as what they do
+	ip := newDfInterproc(c, func(ci *types.Info, call *ast.CallExpr, st dfState) bool {
+		if k, op, ok := dfMutexOp(ci, call); ok {
 			dfApplyMutex(st, k, op)
+			return true
 		}
-		if isCancelCall(call) {
+		if isCancelIn(ci, call) {
 			st["cancel"] = dfW
+			return true
 		}
-	}
+		return false
+	})
+	fl.Call = ip.CallFn(info)
 	fl.Run(w.wait.Body, dfState{})
 	type ex struct {
 		name string
@@ -595,6 +1095,7 @@ func ruleWait(c *Ctx) []Obligation {
 				held = append(held, k+" may be "+dfModeString(m))
 			}
 		}
+		sort.Strings(held)
 		if len(held) == 0 {
 			ob.Status, ob.Detail = Discharged, "every mutex touched by Wait is unlocked here"
 		} else {
